@@ -78,7 +78,7 @@ class Variable(FortranObj):
             return
         if self.parent is not None:
             link_obj = find_in_scope(self.parent, self.link_name, obj_tree)
-            if link_obj is not None:
+            if link_obj is not None and not self.links_back(link_obj):
                 self.link_obj = link_obj
 
     def require_link(self):
